@@ -37,6 +37,18 @@ BAD_Q = ['abc', '', '1..2', '0.5x', 'x', '.', '--1', '0.5.', '1/2', 'q']
 WS = ['', '', '', ' ', ' ', '  ', '\t', ' \t ']
 
 
+# texts that pandas.read_csv re-types (numbers, missing-value markers, booleans)
+TYPED_TEXT = ['007', '12', '0', '-5', '1e3', '3.5', 'NA', 'nan', 'null', 'None', 'True', 'false', 'N/A', 'inf']
+_NUMERIC = re.compile(r'[+-]?(\d+\.?\d*|\.\d+)([eE][+-]?\d+)?$|[+-]?inf$', re.I)
+_NA = {'', '#N/A', '#N/A N/A', '#NA', '-1.#IND', '-1.#QNAN', '-NaN', '-nan', '1.#IND', '1.#QNAN', '<NA>', 'N/A', 'NA',
+       'NULL', 'NaN', 'None', 'n/a', 'nan', 'null'}
+_BOOL = {'true', 'false'}
+
+
+def looks_typed(text: str) -> bool:
+    return bool(_NUMERIC.match(text)) or text in _NA or text.lower() in _BOOL
+
+
 def _canon_enc(kind: str, options: typing.Mapping[str, str]):
     return [kind, sorted([k, v] for k, v in options.items())]
 
@@ -450,9 +462,37 @@ class C19(fw.Check):
         cases = [('[!]', '!'), ('[]]', ']'), ('[a-]', '-'), ('[-a]', '-'), ('[a-c-e]', 'd'), ('[c-a]', 'b'), ('[!c-a]', 'b'),
                  ('a[', 'a['), ('[]-a]', '^'), ('**a', 'a'), ('*a*b*', 'xaybz'), ('[a-b--c]', '-'), ('[a--]', 'b'), ('[--a]', '/')]
         for _ in range(self.n(2000, 60000)):
-            pat = ''.join(rng.choice('aabc/-*?[]!') for _ in range(rng.randint(0, 7)))
+            if rng.random() < 0.5:
+                pat = ''.join(rng.choice('aabc/-*?[]!') for _ in range(rng.randint(0, 7)))
+            else:  # structured: literals, * ? and closed bracket expressions (negated, ranges, leading ] or -)
+                pat = ''
+                for _ in range(rng.randint(1, 4)):
+                    piece = rng.random()
+                    if piece < 0.45:
+                        pat += '[' + rng.choice(['', '', '!']) + rng.choice(['', '', ']', '-']) + ''.join(
+                            rng.choice('abc/-') for _ in range(rng.randint(1, 4))) + ']'
+                    elif piece < 0.6:
+                        pat += rng.choice('*?')
+                    else:
+                        pat += rng.choice('abc/')
             pat = re.sub(r'(?<!\[)!', 'b', pat)  # '!' only as a negation mark (see TRUSTED)
-            name = ''.join(rng.choice('aabc/-]') for _ in range(rng.randint(0, 5)))
+            if rng.random() < 0.4:
+                name = ''.join(rng.choice('aabc/-]') for _ in range(rng.randint(0, 5)))
+            else:  # derived from the pattern so that matches are frequent
+                name, inset = '', False
+                for i, c in enumerate(pat):
+                    if c == '*':
+                        name += ''.join(rng.choice('abc/') for _ in range(rng.randint(0, 2)))
+                    elif c == '?':
+                        name += rng.choice('abc/-')
+                    elif c == '[' and not inset:
+                        inset = True
+                        body = pat[i + 1:].split(']')[0] or ']'
+                        name += rng.choice(body if rng.random() < 0.7 and not body.startswith('!') else 'abc-]/')
+                    elif c == ']' and inset:
+                        inset = False
+                    elif not inset:
+                        name += c
             cases.append((pat, name))
         answers = self.model([sexp.dumps(['glob', p, s]) for p, s in cases])
         for (p, s), ans in zip(cases, answers):
@@ -523,12 +563,21 @@ class C19(fw.Check):
         except FileNotFoundError:
             return 'unusable', 'pandas.read_json treats the literal as a path', data
         got_names = [f.name for f in entry.schema]
-        got_rows = [[int(v) if kd == 'int' and not isinstance(v, str) else v for v, kd in zip(r, kinds)]
+        got_rows = [[int(v) if kd == 'int' and not isinstance(v, str) and v == v else v for v, kd in zip(r, kinds)]
                     for r in entry.data.to_rows()]
         got_rows = [[v if isinstance(v, (int, str)) else repr(v) for v in r] for r in got_rows]
         if got_names != list(names) or got_rows != [list(r) for r in rows]:
-            return 'differs', {'columns': got_names, 'rows': got_rows}, data
+            retyped = (encoder.encoding.kind == 'text/csv' and got_names == list(names) and len(got_rows) == len(rows)
+                       and all(g == w or (kd == 'str' and looks_typed(w))
+                               for gr, wr in zip(got_rows, rows) for g, w, kd in zip(gr, wr, kinds)))
+            return 'differs', {'columns': got_names, 'rows': got_rows, 'retyped_text_only': retyped}, data
         return 'same', None, data
+
+    @staticmethod
+    def _rt_signature(label: str, detail) -> str:
+        """the known root cause (untyped CSV: text cells that look like numbers / NA / booleans are re-typed by the
+        reader) gets its own key; any other difference of any pair keeps the pair's key"""
+        return 'roundtrip-csv-text-retyped' if detail.get('retyped_text_only') else 'roundtrip-' + label
 
     def _codec_pairs(self):
         """(label, encoder index, content type given to get_decoder): the decoder's pattern matches the encoder's encoding"""
@@ -558,8 +607,31 @@ class C19(fw.Check):
                 self.case(('rt', label, tuple(names), tuple(map(tuple, rows))), f'roundtrip {label}', nontrivial=len(rows) > 1)
                 if status == 'differs':
                     self.violate(f'{label}: dumps -> loads returned {detail} for columns {names} rows {rows}',
-                                 {'kind': 'roundtrip', 'names': names, 'kinds': kinds, 'rows': rows, 'encoder': ei, 'decoder': list(dec)},
-                                 'roundtrip-' + label)
+                                 {'kind': 'roundtrip', 'names': names, 'kinds': kinds, 'rows': rows, 'encoder': list(self._encs[ei]), 'decoder': list(dec)},
+                                 self._rt_signature(label, detail))
+        # text cells that look typed: JSON keeps them (typed format), text/csv does not (known finding C19-F1)
+        for _ in range(self.n(40, 400)):
+            names, kinds, rows = self._table(slice_only=True)
+            if 'str' not in kinds:
+                kinds[0] = 'str'
+            col = kinds.index('str')
+            whole = self.rng.random() < 0.6
+            for r in rows:
+                for j, kd in enumerate(kinds):
+                    if kd == 'str' and isinstance(r[j], int):
+                        r[j] = 'x'
+                if whole or self.rng.random() < 0.5:
+                    r[col] = self.rng.choice(TYPED_TEXT)
+            for label, ei, dec in pairs:
+                if not usable.get(label):
+                    continue
+                status, detail, data = self._roundtrip_once(names, kinds, rows, ei, dec)
+                self.case(('rt-typed', label, tuple(names), tuple(map(tuple, rows))), f'roundtrip typed-looking text {label} -> {status}',
+                          nontrivial=True)
+                if status == 'differs':
+                    self.violate(f'{label}: dumps -> loads returned {detail} for columns {names} rows {rows}',
+                                 {'kind': 'roundtrip', 'names': names, 'kinds': kinds, 'rows': rows,
+                                  'encoder': list(self._encs[ei]), 'decoder': list(dec)}, self._rt_signature(label, detail))
         self.extra['codec_pairs'] = {k: ('exercised' if v else 'unusable in this environment (pandas.read_json)') for k, v in usable.items()}
         if not any(usable.values()):
             raise fw.MachineryError('no codec pair is usable in this environment')
@@ -702,8 +774,12 @@ class C19(fw.Check):
             src = (w['source'][0], w['source'][1])
             bad = self._oracle_decoder(src, self._impl_decoder(src))
         elif kind == 'roundtrip':
-            status, detail, _ = self._roundtrip_once(w['names'], w['kinds'], w['rows'], w['encoder'], tuple(w['decoder']))
-            bad = (f'dumps -> loads returned {detail}', 'roundtrip') if status == 'differs' else None
+            ei = next((i for i, e in enumerate(self._encs) if list(e) == list(w['encoder'])), None)
+            if ei is None:
+                return None
+            status, detail, _ = self._roundtrip_once(w['names'], w['kinds'], w['rows'], ei, tuple(w['decoder']))
+            bad = ((f'dumps -> loads returned {detail} for rows {w["rows"]}', self._rt_signature(w['encoder'][0], detail))
+                   if status == 'differs' else None)
         else:
             return None
         return fw.Violation(bad[0], w, bad[1]) if bad else None
